@@ -2,6 +2,7 @@ package main
 
 import (
 	"fmt"
+	"math"
 	"strings"
 )
 
@@ -39,11 +40,31 @@ const (
 	OZExt    // c=extra bits
 	OSExt
 	OConcat
+	// IEEE-754 binary64 fragment. Terms of floating-point sort have w == wFP; they only occur as operands of the
+	// operators below (floats enter the encoding as 64-bit patterns or as converted integers, never as variables).
+	OFPOfBits // BV64 -> FP (reinterpretation)
+	OFPOfSInt // signed BV -> FP, round to nearest even (Go's float64(int64))
+	OFPOfUInt // unsigned BV -> FP, round to nearest even
+	OFPToSInt // FP -> signed BV64, round toward zero (defined by the caller's range guard)
+	OFPAdd
+	OFPSub
+	OFPMul
+	OFPDiv
+	OFPNeg
+	OFPLt // -> Bool
+	OFPLe // -> Bool
+	OFPEq // -> Bool (IEEE equality: NaN differs from everything, +0 == -0)
+	OFPIsNaN
 )
+
+// wFP marks a term of sort (_ FloatingPoint 11 53).
+const wFP = -1
 
 var opNames = [...]string{"const", "var", "not", "and", "or", "=", "ite", "bvadd", "bvsub", "bvmul",
 	"bvudiv", "bvurem", "bvsdiv", "bvsrem", "bvand", "bvor", "bvxor", "bvshl", "bvlshr", "bvashr",
-	"bvult", "bvule", "bvslt", "bvsle", "extract", "zero_extend", "sign_extend", "concat"}
+	"bvult", "bvule", "bvslt", "bvsle", "extract", "zero_extend", "sign_extend", "concat",
+	"(_ to_fp 11 53)", "(_ to_fp 11 53) RNE", "(_ to_fp_unsigned 11 53) RNE", "(_ fp.to_sbv 64) RTZ",
+	"fp.add RNE", "fp.sub RNE", "fp.mul RNE", "fp.div RNE", "fp.neg", "fp.lt", "fp.leq", "fp.eq", "fp.isNaN"}
 
 type Term struct {
 	op   Op
@@ -474,6 +495,43 @@ func (t *Term) eval(m Model, memo map[*Term]uint64) uint64 {
 		r = uint64(sext64(t.a[0].eval(m, memo), t.a[0].w)) & mask(t.w)
 	case OConcat:
 		r = (t.a[0].eval(m, memo)<<uint(t.a[1].w) | t.a[1].eval(m, memo)) & mask(t.w)
+	case OFPOfBits:
+		r = t.a[0].eval(m, memo)
+	case OFPOfSInt:
+		r = math.Float64bits(float64(sext64(t.a[0].eval(m, memo), t.a[0].w)))
+	case OFPOfUInt:
+		r = math.Float64bits(float64(t.a[0].eval(m, memo)))
+	case OFPToSInt:
+		r = uint64(int64(math.Float64frombits(t.a[0].eval(m, memo))))
+	case OFPAdd, OFPSub, OFPMul, OFPDiv:
+		x, y := math.Float64frombits(t.a[0].eval(m, memo)), math.Float64frombits(t.a[1].eval(m, memo))
+		var z float64
+		switch t.op {
+		case OFPAdd:
+			z = x + y
+		case OFPSub:
+			z = x - y
+		case OFPMul:
+			z = x * y
+		default:
+			z = x / y
+		}
+		r = math.Float64bits(z)
+	case OFPNeg:
+		r = t.a[0].eval(m, memo) ^ (1 << 63)
+	case OFPLt, OFPLe, OFPEq:
+		x, y := math.Float64frombits(t.a[0].eval(m, memo)), math.Float64frombits(t.a[1].eval(m, memo))
+		switch t.op {
+		case OFPLt:
+			r = b2u(x < y)
+		case OFPLe:
+			r = b2u(x <= y)
+		default:
+			r = b2u(x == y)
+		}
+	case OFPIsNaN:
+		x := math.Float64frombits(t.a[0].eval(m, memo))
+		r = b2u(x != x)
 	default:
 		r, _ = foldBin(t.op, t.a[0].w, t.a[0].eval(m, memo), t.a[1].eval(m, memo))
 	}
@@ -495,6 +553,9 @@ func evalTerm(t *Term, m Model) uint64 { return t.eval(m, map[*Term]uint64{}) }
 func sortOf(w int) string {
 	if w == 0 {
 		return "Bool"
+	}
+	if w == wFP {
+		return "(_ FloatingPoint 11 53)"
 	}
 	return fmt.Sprintf("(_ BitVec %d)", w)
 }
@@ -562,4 +623,123 @@ func (t *Term) collectVars(seen map[*Term]bool, out map[string]int) {
 	for _, x := range t.a {
 		x.collectVars(seen, out)
 	}
+}
+
+// ---- floating point constructors ----
+
+func isFPTerm(t *Term) bool { return t.w == wFP }
+
+func mkFPOfBits(bits *Term) *Term {
+	if bits.w != 64 {
+		panic("mkFPOfBits: width")
+	}
+	return &Term{op: OFPOfBits, w: wFP, a: []*Term{bits}}
+}
+
+func mkFPConst(f float64) *Term { return mkFPOfBits(mkConst(math.Float64bits(f), 64)) }
+
+// fpConstOf returns the value of a floating-point term that is a constant.
+func fpConstOf(t *Term) (float64, bool) {
+	if t.op == OFPOfBits && t.a[0].isConst() {
+		return math.Float64frombits(t.a[0].c), true
+	}
+	return 0, false
+}
+
+func mkFPOfInt(a *Term, signed bool) *Term {
+	if a.isConst() {
+		if signed {
+			return mkFPConst(float64(sext64(a.c, a.w)))
+		}
+		return mkFPConst(float64(a.c))
+	}
+	op := OFPOfUInt
+	if signed {
+		op = OFPOfSInt
+	}
+	return &Term{op: op, w: wFP, a: []*Term{a}}
+}
+
+// mkFPToInt64 is Go's int64(f) on amd64: truncation toward zero inside the int64 range, MinInt64 (the "integer
+// indefinite" value) for NaN and everything outside it.
+func mkFPToInt64(f *Term) *Term {
+	if c, ok := fpConstOf(f); ok {
+		return mkConst(uint64(int64(c)), 64)
+	}
+	inRange := mkAnd(mkFPCmp(OFPLe, mkFPConst(-9223372036854775808.0), f), mkFPCmp(OFPLt, f, mkFPConst(9223372036854775808.0)))
+	return mkIte(inRange, &Term{op: OFPToSInt, w: 64, a: []*Term{f}}, mkConst(1<<63, 64))
+}
+
+func mkFPArith(op Op, a, b *Term) *Term {
+	if x, ok := fpConstOf(a); ok {
+		if y, ok := fpConstOf(b); ok {
+			switch op {
+			case OFPAdd:
+				return mkFPConst(x + y)
+			case OFPSub:
+				return mkFPConst(x - y)
+			case OFPMul:
+				return mkFPConst(x * y)
+			case OFPDiv:
+				return mkFPConst(x / y)
+			}
+		}
+	}
+	return &Term{op: op, w: wFP, a: []*Term{a, b}}
+}
+
+func mkFPNeg(a *Term) *Term {
+	if x, ok := fpConstOf(a); ok {
+		return mkFPConst(-x)
+	}
+	return &Term{op: OFPNeg, w: wFP, a: []*Term{a}}
+}
+
+func mkFPCmp(op Op, a, b *Term) *Term {
+	if x, ok := fpConstOf(a); ok {
+		if y, ok := fpConstOf(b); ok {
+			switch op {
+			case OFPLt:
+				return mkBool(x < y)
+			case OFPLe:
+				return mkBool(x <= y)
+			case OFPEq:
+				return mkBool(x == y)
+			}
+		}
+	}
+	return &Term{op: op, w: 0, a: []*Term{a, b}}
+}
+
+func mkFPIsNaN(a *Term) *Term {
+	if x, ok := fpConstOf(a); ok {
+		return mkBool(x != x)
+	}
+	return &Term{op: OFPIsNaN, w: 0, a: []*Term{a}}
+}
+
+// mkFPBits is math.Float64bits; only defined here for terms that came from a bit pattern (NaN payloads are not
+// determined by IEEE arithmetic).
+func mkFPBits(f *Term) (*Term, bool) {
+	if f.op == OFPOfBits {
+		return f.a[0], true
+	}
+	return nil, false
+}
+
+// hasFP reports whether the term DAG uses the floating-point fragment.
+func hasFP(t *Term, seen map[*Term]bool) bool {
+	if t.op >= OFPOfBits {
+		return true
+	}
+	if t.op == OConst || t.op == OVar || seen[t] {
+		return false
+	}
+	seen[t] = true
+	for _, x := range t.a {
+		if hasFP(x, seen) {
+			return true
+		}
+	}
+	return false
 }
